@@ -212,6 +212,43 @@ func synthDynamic(rng *rand.Rand, w *BitW, plain []byte, br int) []byte {
 			distLens[0] = 1
 		}
 	}
+	if br == 0 && rng.Intn(2) == 0 {
+		// make a non-zero run of equal code lengths straddle the boundary between the
+		// literal/length lengths and the distance lengths (RFC 1951 3.2.7: they form
+		// ONE sequence, a repeat code may cross it). Permuting lengths among symbols
+		// keeps each code complete.
+		last := nlit - 1
+		if litLens[last] == 0 {
+			for i := range litLens {
+				if litLens[i] > 0 && i != 256 {
+					litLens[last], litLens[i] = litLens[i], 0
+					break
+				}
+			}
+		}
+		if l := litLens[last]; l > 0 {
+			// more literal/length symbols of that length at the very end
+			for t := last - 1; t > 256 && t > last-4; t-- {
+				if litLens[t] == l {
+					continue
+				}
+				for i := 0; i < 256; i++ {
+					if litLens[i] == l {
+						litLens[t], litLens[i] = litLens[i], litLens[t]
+						break
+					}
+				}
+			}
+			// distance lengths equal to l first
+			w := 0
+			for i := range distLens {
+				if distLens[i] == l {
+					distLens[w], distLens[i] = distLens[i], distLens[w]
+					w++
+				}
+			}
+		}
+	}
 	switch br {
 	case 3: // over-subscribed literal code
 		for i := range litLens {
